@@ -83,6 +83,8 @@ def setup(state: Dict[str, Any]) -> None:
 
     def _plist(x):
         """a group's "params" as torch.optim reads it: one tensor, or any iterable of tensors"""
+        if isinstance(x, OneShotParams):
+            return list(x.items)  # (the harness remembers what the iterator is going to yield; peeking would consume it)
         return [x] if isinstance(x, torch.Tensor) else list(x)
 
     def snap(params, lr):
@@ -213,6 +215,21 @@ def setup(state: Dict[str, Any]) -> None:
     state["installs"] = install(orig, dec)
 
 
+class OneShotParams:
+    """A group's "params" given as a true one-shot iterator - dict(params=model.base.parameters(), lr=...) is the torch.optim
+    documentation's own idiom. A second pass over it yields nothing (as with a generator)."""
+
+    def __init__(self, items):
+        self.items = list(items)
+        self._it = iter(self.items)
+
+    def __iter__(self):
+        return self
+
+    def __next__(self):
+        return next(self._it)
+
+
 class RecordingIter:
     """A one-shot iterable (generator-like) that remembers what it is going to yield."""
 
@@ -274,6 +291,9 @@ def run_case(case: Dict[str, Any], ctx) -> None:
         elif pf < 0.35 and len(ps) == 1:
             g["params"] = ps[0]  # torch.optim accepts ONE tensor here
             ctx.count("form:group-params-as-a-single-tensor")
+        elif pf < 0.5:
+            g["params"] = OneShotParams(ps)
+            ctx.count("form:group-params-as-a-one-shot-iterator")
         if gspec["lr"] is not None:
             g["lr"] = shared_lr_tensor if (shared_lr_tensor is not None and case["share_tensor_lr"]) else mk_lr(gspec["lr"])
         if gspec["wd"] is not None:
@@ -296,7 +316,7 @@ def run_case(case: Dict[str, Any], ctx) -> None:
     def src_of(i):
         k = 0
         for g in built_groups:
-            for _ in ([g["params"]] if isinstance(g["params"], torch.Tensor) else g["params"]):
+            for _ in ([g["params"]] if isinstance(g["params"], torch.Tensor) else g["params"].items if isinstance(g["params"], OneShotParams) else g["params"]):
                 if k == i:
                     return g
                 k += 1
